@@ -539,11 +539,6 @@ def s_str_index(m, st, info, args):
     return StrRef(s[lo:hi])
 
 
-@summary(r"core::str::<impl str>::get")
-def s_str_get(m, st, info, args):
-    raise Unsupported("str::get")
-
-
 @summary(r"core::str::<impl str>::strip_prefix")
 def s_strip_prefix(m, st, info, args):
     s = as_str(m, args[0])
@@ -1986,3 +1981,78 @@ def s_array_iter_len(m, st, info, args):
     tid = ret_ty(m, info)
     opt = m.p.types[tid]["tys"][1]
     return Agg(tid, 0, [n, mk_some(m, opt, n)])
+
+
+@summary(r"core::str::<impl str>::get", r"core::str::<impl str>::is_char_boundary")
+def s_str_get_or_boundary(m, st, info, args):
+    s = as_str(m, args[0])
+    if info["def"].endswith("is_char_boundary"):
+        off = args[1]
+        pos = 0
+        if isinstance(off, int):
+            for c in s:
+                if isinstance(pos, int) and pos == off:
+                    return True
+                l = m.utf8_len(c)
+                if isinstance(l, int) and isinstance(pos, int):
+                    pos += l
+                else:
+                    pos = simp(bv(pos, 64) + bv(l, 64))
+                    if m.decide(bv(pos, 64) == off, "boundary"):
+                        return True
+            if isinstance(pos, int):
+                return pos == off
+            return m.decide(bv(pos, 64) == off, "boundary-end")
+        # symbolic offset: true iff it equals one of the (possibly symbolic) prefix lengths
+        conds = []
+        for c in s:
+            conds.append(simp(bv(pos, 64) == bv(off, 64)))
+            pos = simp(bv(pos, 64) + bv(m.utf8_len(c), 64))
+        conds.append(simp(bv(pos, 64) == bv(off, 64)))
+        return b_or(*conds)
+    r = args[1]
+    tid = ret_ty(m, info)
+    tn = m.p.types.get(r.ty, {}).get("name", "") if isinstance(r, Agg) else ""
+    if not tn.endswith("Range") or tn.endswith("RangeInclusive"):
+        raise Unsupported("str::get with " + tn)
+    try:
+        lo = char_index_of_byte(m, s, r.f[0], "str.get")
+        hi = char_index_of_byte(m, s, r.f[1], "str.get")
+    except PathEnd as e:
+        if e.kind == "panic":
+            return mk_none(m, tid)
+        raise
+    if lo > hi:
+        return mk_none(m, tid)
+    return mk_some(m, tid, StrRef(s[lo:hi]))
+
+
+def _trim(m, s, pat, left, right):
+    """generic trim by a char predicate pattern (char or whitespace)"""
+    def matches(c):
+        if pat == "ws":
+            return s_is_whitespace(m, None, None, [c])
+        return v_eq(c, pat)
+    lo, hi = 0, len(s)
+    if left:
+        while lo < hi and m.decide(matches(s[lo]), "trim-left"):
+            lo += 1
+    if right:
+        while hi > lo and m.decide(matches(s[hi - 1]), "trim-right"):
+            hi -= 1
+    return StrRef(s[lo:hi])
+
+
+@summary(r"core::str::<impl str>::trim_matches", r"core::str::<impl str>::trim_start_matches", r"core::str::<impl str>::trim_end_matches")
+def s_trim_matches(m, st, info, args):
+    pat = args[1]
+    if not (isinstance(pat, int) or is_sym(pat)):
+        raise Unsupported("trim_matches with non-char pattern")
+    d = info["def"]
+    return _trim(m, as_str(m, args[0]), pat, "end" not in d, "start" not in d)
+
+
+@summary(r"core::str::<impl str>::trim", r"core::str::<impl str>::trim_start", r"core::str::<impl str>::trim_end")
+def s_trim(m, st, info, args):
+    d = info["def"]
+    return _trim(m, as_str(m, args[0]), "ws", not d.endswith("trim_end"), not d.endswith("trim_start"))
